@@ -20,7 +20,7 @@ def cases(seed, tier):
             cs.append((f'a{k}', f'quick|{p}|{lim}'))
             k += 1
     dist['exhaustive_2x2'] = len(p22)
-    nrand = 12000 if tier == 'quick' else 1200000
+    nrand = 12000 if tier == 'quick' else 3000000
     rp = gen.random_progs(rng, nrand, gen.SIZES_SMALL + [(6, 6), (5, 5)])
     for i, p in enumerate(rp):
         lim = rng.choice(LIMITS + [rng.randint(1, 3000)])
